@@ -89,6 +89,11 @@ fn main() {
             j.put("failures", J::Arr(sr.viols.iter().map(|v| J::obj().set("property", J::s(v.prop)).set("signature", J::s(&v.sig)).set("message", J::s(&v.msg)).set("kind", J::s("sharedref"))).collect()));
             emit(&args, j);
         }
+        "typevar" => {
+            let mut out = engine::RunOut::new();
+            typevar::run_typevar(args.u64("seed", 0), args.u64("events", 100_000), &mut out);
+            emit(&args, stats_json(&out).set("cmd", J::s("typevar")));
+        }
         "churn" | "hashscale" | "interleave" | "realheap" => {
             let mut out = engine::RunOut::new();
             let seed = args.u64("seed", 0);
